@@ -216,12 +216,15 @@ def links(base, m):
 
 
 def run_scenario(case):
-    base = tempfile.mkdtemp(prefix="c16n_", dir=C.scratch_dir())
+    base, extern = tempfile.mkdtemp(prefix="c16n_", dir=C.scratch_dir()), []
     try:
         open(os.path.join(base, "pipemod_c16.py"), "w").write(module_src(PIPES[case["pipe"]]))
         open(os.path.join(base, "holder_c16n.py"), "w").write(HOLDER)
+        if case.get("other_fs"):   # the FILE-SYSTEMS dimension (harness/c16_fs.py): these parts of the tree are links to another file system
+            import c16_fs
+            extern += c16_fs.nested_other_fs(base, case["other_fs"])
         for d in ("wd_a", "wd_b/sub", "elsewhere", "store", "views"):
-            os.makedirs(os.path.join(base, d))
+            os.makedirs(os.path.join(base, d), exist_ok=True)
         for d in ("store", "views"):
             os.symlink(os.path.join(base, d), os.path.join(base, "lnk_" + d))
         procs, m = compile_script(case, base)
@@ -240,7 +243,8 @@ def run_scenario(case):
     except Exception as e:  # noqa
         return {"case": case, "error": str(e)[-500:]}
     finally:
-        shutil.rmtree(base, ignore_errors=True)
+        for d in [base] + extern:
+            shutil.rmtree(d, ignore_errors=True)
 
 
 def cases_for(tier, rng, caches, quick):
